@@ -104,7 +104,7 @@ def run():
     isolate_config(work)
     corp = Corpus(chk)
     if chk.quick:
-        pairs = corp.pairs(n_enum=900, n_random=250, n_unrelated=60, bases=("b1", "b2", "b3", "b4", "b5", "b6"))
+        pairs = corp.pairs(n_enum=1500, n_random=400, n_unrelated=80, bases=("b1", "b2", "b3", "b4", "b5", "b6"))
         file_every = 8
     else:
         pairs = corp.pairs(n_enum=None, n_random=6000, n_unrelated=1500)
